@@ -356,7 +356,7 @@ impl Report {
 			}
 			self.count("violations_total");
 		} else {
-			if self.foreign.len() < 50 {
+			if self.foreign.len() < 400 {
 				self.foreign.push(v);
 			}
 			self.count("foreign_violations_total");
@@ -398,7 +398,7 @@ impl Report {
 			}
 		}
 		for v in o.foreign {
-			if self.foreign.len() < 50 {
+			if self.foreign.len() < 400 {
 				self.foreign.push(v);
 			}
 		}
